@@ -12,12 +12,18 @@ Open Scope Z_scope.
 
 (* ---- obligations tied to the source of StartFollowChain ---- *)
 Definition src : follow_src :=
-  mkFsrc err_chan_is_made failed_sync_is_reported retry_branch_continues hash_pinned_before_store.
+  mkFsrc err_chan_is_made failed_sync_is_reported retry_branch_continues hash_pinned_before_store
+         follow_stack_has_append_store.
 
 (* errChan is made (not a nil channel), failed attempts are sent on it, the receiving branch
    continues the loop: the retry branch is live; the hash test precedes every store operation *)
 Theorem C10_follow_src : retry_live src = true /\ src_hash_pinned_before_store src = true.
 Proof. split; reflexivity. Qed.
+
+(* the store StartFollowChain hands to its SyncManager is callback(append(scheme(base))), the
+   participant's stack (before the fix the appendStore was missing there) *)
+Theorem C10_follow_stack_src : follow_stack src = SkAppend.
+Proof. reflexivity. Qed.
 
 (* the SyncManager of follow is configured with the information that passed the hash test, and
    tryNode's only VerifyBeacon call takes s.info.PublicKey and precedes every Put: this is what
@@ -107,56 +113,38 @@ Proof.
 Qed.
 Print Assumptions C10_resync_only_verified.
 
-(* Follow stack: "in chain order" at full strength (every scheme) does NOT hold: the stack built
-   by StartFollowChain is callback(scheme(base)) without an appendStore, and on unchained schemes
-   nothing else ties a verifying beacon to the position head+1. *)
-Definition C10_follow_in_order_full : Prop :=
-  forall vfy chained bk (ps : list peer) upTo st, wf st ->
-  let o := sync_loop vfy chained bk SkFollow 0 upTo st ps in
-  map b_round (sy_ws o) = zseq (hd st + 1) (length (sy_ws o)).
-
-(* witness: head 0, one peer that streams only the (verifying) beacon of round 5: it is stored,
-   and with upTo = 5 the sync even reports success over a store with a hole *)
-Definition liar_skips : peer := mkP false true (fun _ => [Pkt MdSame (xchain false 5)]).
-Theorem C10_follow_in_order_refuted : ~ C10_follow_in_order_full.
-Proof.
-  intro H.
-  specialize (H (xvfy false) false BkOverwrite [liar_skips] 5 (mkS [xchain false 0] (xchain false 0)) eq_refl).
-  vm_compute in H. discriminate.
-Qed.
-Print Assumptions C10_follow_in_order_refuted.
-
-Example C10_follow_gap_witness :
-  let o := sync_loop (xvfy false) false BkOverwrite SkFollow 0 5
-             (mkS [xchain false 0] (xchain false 0)) [liar_skips] in
-  sy_r o = SyncOk /\ map b_round (s_base (sy_st o)) = [5; 0] /\
-  Forall (fun b => xvfy false b = true) (sy_ws o).
-Proof. vm_compute. repeat split; repeat constructor. Qed.
-
-(* carve-out spelled out: the chained scheme (the signed message contains the previous
-   signature; a verifying beacon carries the chain's signature and previous signature, distinct
-   rounds have distinct signatures). Then the whole follow loop writes head+1, head+2, ... *)
-Theorem C10_follow_in_order_partial :
-  forall vfy bk (chain : Z -> beacon),
-  (forall b, vfy b = true -> 1 <= b_round b) ->
-  (forall b, vfy b = true -> b_sig b = b_sig (chain (b_round b))) ->
-  (forall b, vfy b = true -> b_prev b = b_sig (chain (b_round b - 1))) ->
-  (forall r r', 0 <= r -> 0 <= r' -> b_sig (chain r) = b_sig (chain r') -> r = r') ->
-  forall live keep targ upTo fuel attempts st r st' ws,
-  cinv chain st ->
-  follow_loop true bk vfy live keep targ upTo fuel st attempts = (r, st', ws) ->
+(* StartFollowChain's retry loop, every scheme, every back-end, every peer behaviour, no
+   cryptographic assumption: the writes verify, the rounds are head+1, head+2, ..., the raw store
+   grows by exactly these. (Full statement; it was refuted for unchained schemes while the follow
+   stack had no appendStore.) *)
+Theorem C10_follow_in_order :
+  forall vfy chained bk live keep targ upTo fuel attempts st r st' ws, wf st ->
+  follow_loop chained bk (follow_stack src) vfy live keep targ upTo fuel st attempts = (r, st', ws) ->
   Forall (fun b => vfy b = true) ws /\
   map b_round ws = zseq (hd st + 1) (length ws) /\
-  s_base st' = rev ws ++ s_base st /\ cinv chain st'.
+  s_base st' = rev (map (store_form chained) ws) ++ s_base st /\ wf st'.
 Proof.
-  intros vfy bk chain P1 P2 P3 P4 live keep targ upTo fuel attempts st r st' ws Hc H.
-  pose proof (follow_loop_generic vfy true bk live keep targ upTo fuel attempts st r st' ws H) as [G1 _].
-  pose proof (follow_loop_inorder vfy true bk chain P1 P2 (fun _ => P3) (fun _ => P4) eq_refl
-                live keep targ upTo fuel attempts st r st' ws Hc H) as [A1 [_ [A3 A4]]].
-  split; [exact G1|]. split; [apply consec_rounds; exact A1|]. split; [|exact A4].
-  rewrite A3. f_equal. f_equal. clear. induction ws as [|w ws IH]; simpl; congruence.
+  intros vfy chained bk live keep targ upTo fuel attempts st r st' ws Hw H.
+  rewrite C10_follow_stack_src in H.
+  pose proof (follow_loop_generic vfy chained bk SkAppend live keep targ upTo fuel attempts st r st' ws H) as [G1 _].
+  pose proof (follow_loop_inorder vfy chained bk SkAppend wf (wf_put vfy chained bk)
+                live keep targ upTo fuel attempts st r st' ws Hw H) as [A1 [_ [A3 A4]]].
+  split; [exact G1|]. split; [apply consec_rounds; exact A1|]. split; assumption.
 Qed.
-Print Assumptions C10_follow_in_order_partial.
+Print Assumptions C10_follow_in_order.
+
+(* regression witness, kept: what the stack WITHOUT the appendStore did (model only; the same
+   script is replayed on the real StartFollowChain on every run and must now be refused): head 0,
+   a peer streams only the genuine beacon of round 5 - it was stored, and Sync(upTo=5) succeeded *)
+Definition liar_skips : peer := mkP false true (fun _ => [Pkt MdSame (xchain false 5)]).
+Example C10_follow_gap_witness :
+  let old := sync_loop (xvfy false) false BkOverwrite SkFollow 0 5
+               (mkS [xchain false 0] (xchain false 0)) [liar_skips] in
+  let now := sync_loop (xvfy false) false BkOverwrite (follow_stack src) 0 5
+               (mkS [xchain false 0] (xchain false 0)) [liar_skips] in
+  sy_r old = SyncOk /\ map b_round (s_base (sy_st old)) = [5; 0] /\
+  sy_r now = SyncErr EFailedAll /\ map b_round (s_base (sy_st now)) = [0].
+Proof. vm_compute. repeat split. Qed.
 
 (* ---- 2. convergence ---- *)
 
@@ -363,21 +351,21 @@ Proof.
     destruct (negb (i_id_ok i)); simpl; [constructor|].
     destruct (open_store (raw_put bk match db with Some d => d | None => [] end (i_genesis i))) as [st|];
       simpl; [|constructor].
-    destruct (follow_loop chained bk (vfy_of i) (retry_live src) (upTo =? 0)
+    destruct (follow_loop chained bk (follow_stack src) (vfy_of i) (retry_live src) (upTo =? 0)
                 (if negb (upTo =? 0) && (upTo <? cur) then upTo else cur) upTo fuel st attempts)
       as [[r st'] ws] eqn:F.
-    simpl. pose proof (follow_loop_generic (vfy_of i) chained bk _ _ _ _ _ _ _ _ _ _ F) as [G1 _]. exact G1.
+    simpl. pose proof (follow_loop_generic (vfy_of i) chained bk _ _ _ _ _ _ _ _ _ _ _ F) as [G1 _]. exact G1.
   - split.
     { intros i' _ Hi Hne. auto. }
     intros [H|H]; exfalso; apply H; reflexivity.
 Qed.
 Print Assumptions C10_follow_pins_hash.
 
-(* With the retry loop as the source has it now (C10_follow_src): if the peers fail for
-   k = length fails attempts (unreachable, closing, lying; on unchained schemes: never a verifying
-   packet - see C10_follow_in_order_refuted) and the next attempt reaches an honest peer through
-   tolerated ones, follow ends with done, head = upTo, everything written verified against the
-   pinned information. Fuel k+1 (attempts) suffices; [cur] is the current round, upTo <= cur. *)
+(* With the retry loop as the source has it now (C10_follow_src, C10_follow_stack_src): if the
+   peers fail for k = length fails attempts (unreachable, closing, lying in any field - anything
+   but staying silent) and the next attempt reaches an honest peer through non-silent ones, follow
+   ends with done, head = upTo, everything written verified against the pinned information.
+   Fuel k+1 (attempts) suffices; [cur] is the current round, upTo <= cur. *)
 Theorem C10_follow_retry :
   forall vfy_of chained bk hash answers db upTo cur fuel i (chain : Z -> beacon),
   info_from_peers answers = Some i -> i_hash i = hash -> i_id_ok i = true ->
@@ -386,21 +374,18 @@ Theorem C10_follow_retry :
   (chained = true -> forall r, 1 <= r -> b_prev (chain r) = b_sig (chain (r - 1))) ->
   (forall b, vfy_of i b = true -> 1 <= b_round b) ->
   (forall b, vfy_of i b = true -> b_sig b = b_sig (chain (b_round b))) ->
-  (chained = true -> forall b, vfy_of i b = true -> b_prev b = b_sig (chain (b_round b - 1))) ->
-  (chained = true -> forall r r', 0 <= r -> 0 <= r' -> b_sig (chain r) = b_sig (chain r') -> r = r') ->
   forall st0 fails pre h post rest,
   open_store (raw_put bk (match db with Some d => d | None => [] end) (i_genesis i)) = Some st0 ->
   cinv chain st0 -> hd st0 < upTo -> 1 <= upTo <= cur ->
   (length fails < fuel)%nat ->
-  Forall (Forall (tolerated (vfy_of i) chained SkFollow)) fails ->
-  Forall (tolerated (vfy_of i) chained SkFollow) pre -> honest chain 1 upTo h ->
+  Forall (Forall quiet) fails -> Forall quiet pre -> honest chain 1 upTo h ->
   let o := follow vfy_of chained bk src false hash answers db upTo cur fuel
              (fails ++ (pre ++ h :: post) :: rest) in
   fw_r o = FwDone /\
   (exists base', fw_db o = Some base' /\ head_of base' = upTo) /\
   Forall (fun b => vfy_of i b = true) (fw_ws o).
 Proof.
-  intros vfy_of chained bk hash answers db upTo cur fuel i chain Hi Hh Hid L1 L2 L3 L4 L5 L6 L7
+  intros vfy_of chained bk hash answers db upTo cur fuel i chain Hi Hh Hid L1 L2 L3 L4 L5
          st0 fails pre h post rest Hopen Hc Hlt Hup Hfuel Hf Hpre Hhon.
   unfold follow. rewrite Hi. simpl.
   replace (bytes_eqb (i_hash i) hash) with true by (symmetry; apply bytes_eqb_eq; exact Hh).
@@ -409,13 +394,19 @@ Proof.
   assert (Htarg : (if upTo <? cur then upTo else cur) = upTo).
   { destruct (upTo <? cur) eqn:E; [reflexivity|]. apply Z.ltb_ge in E. lia. }
   rewrite Htarg.
-  destruct C10_follow_src as [Hlive _]. rewrite Hlive.
-  destruct (follow_loop_converges (vfy_of i) chained bk chain L1 L2 L3 L4 L5 L6 L7
-              upTo fails pre h post rest fuel st0 Hfuel ltac:(lia) Hf Hpre Hhon Hc Hlt)
+  destruct C10_follow_src as [Hlive _]. rewrite Hlive, C10_follow_stack_src.
+  assert (Htol : forall ps, Forall quiet ps -> Forall (tolerated (vfy_of i) chained SkAppend) ps).
+  { intros ps Hq. apply Forall_forall. intros p Hp. apply quiet_tolerated_append.
+    rewrite Forall_forall in Hq. apply Hq. exact Hp. }
+  assert (Hf' : Forall (Forall (tolerated (vfy_of i) chained SkAppend)) fails).
+  { apply Forall_forall. intros a Ha. apply Htol. rewrite Forall_forall in Hf. apply Hf. exact Ha. }
+  destruct (follow_loop_converges (vfy_of i) chained bk SkAppend chain L1 L2 L3 L4 L5
+              (fun H => ltac:(discriminate H)) (fun H => ltac:(discriminate H))
+              upTo fails pre h post rest fuel st0 Hfuel ltac:(lia) Hf' (Htol _ Hpre) Hhon Hc Hlt)
     as [st' [ws [E [C1 C2]]]].
   rewrite E. simpl. split; [reflexivity|]. split.
   - exists (s_base st'). split; [reflexivity|]. rewrite (head_of_hd st' (proj1 C1)). exact C2.
-  - pose proof (follow_loop_generic (vfy_of i) chained bk _ _ _ _ _ _ _ _ _ _ E) as [G1 _]. exact G1.
+  - pose proof (follow_loop_generic (vfy_of i) chained bk _ _ _ _ _ _ _ _ _ _ _ E) as [G1 _]. exact G1.
 Qed.
 Print Assumptions C10_follow_retry.
 
@@ -500,20 +491,17 @@ Example C10_nonvacuous_follow :
   fw_r (run src 3%nat) = FwDone /\
   option_map (map b_round) (fw_db (run src 3%nat)) = Some [4; 3; 2; 1; 0] /\
   fw_r (run src 2%nat) = FwRetrying /\
-  fw_r (run (mkFsrc false true true true) 3%nat) = FwBlocked /\
+  fw_r (run (mkFsrc false true true true true) 3%nat) = FwBlocked /\
   (* a different hash: refused, nothing created *)
   follow (fun _ => xvfy true) true BkOverwrite src false [43] [InfoIs (xinfo true)] None 4 9 3 att
     = mkFw (FwRefused FeHash) None [] /\
   (* premises of C10_follow_retry for this instance *)
-  Forall (Forall (tolerated (xvfy true) true SkFollow)) [outage; outage] /\
-  Forall (tolerated (xvfy true) true SkFollow) [closer].
+  Forall (Forall quiet) [outage; outage] /\ Forall quiet [closer].
 Proof.
   cbv zeta. split; [vm_compute; reflexivity|]. split; [vm_compute; reflexivity|].
   split; [vm_compute; reflexivity|]. split; [vm_compute; reflexivity|]. split; [vm_compute; reflexivity|].
-  assert (Hc : tolerated (xvfy true) true SkFollow closer).
-  { split; right; intro f; [left; right; reflexivity|intros [H|H]; [discriminate|contradiction]]. }
-  assert (Hu : tolerated (xvfy true) true SkFollow unreachable).
-  { split; right; intro f; [left; right; reflexivity|intros H; contradiction]. }
+  assert (Hc : quiet closer) by (right; intros f [H|H]; [discriminate|contradiction]).
+  assert (Hu : quiet unreachable) by (right; intros f H; contradiction).
   split; [|constructor; [exact Hc|constructor]].
   constructor; [constructor; [exact Hu|constructor; [exact Hc|constructor]]|].
   constructor; [constructor; [exact Hu|constructor; [exact Hc|constructor]]|constructor].
